@@ -1,7 +1,7 @@
 (* C11 — Cell expressions denote the Boolean function MCNP assigns to them.
    Only restatements; proofs are in C11/Proofs.v. Spec vocabulary: C11/Spec.v. *)
 From Coq Require Import List NArith ZArith Bool String Ascii Lia.
-From T4V Require Import Base.Str C11.Model C11.Spec C11.Proofs C11.LexProofs C11.Layout C11.Pipeline.
+From T4V Require Import Base.Str C11.Model C11.Spec C11.Proofs C11.LexProofs C11.Layout C11.Pipeline C11.Sound.
 Import ListNotations.
 Close Scope string_scope.
 Open Scope list_scope.
@@ -139,6 +139,26 @@ Theorem C11_colon_hash_rejected : forall (e : mexpr) (ws : written) (trail : nat
   get_ast (render ws trail) = Err EParse.
 Proof. exact colon_hash_rejected_written. Qed.
 Print Assumptions C11_colon_hash_rejected.
+
+(* ---- soundness of acceptance ----
+   whatever token sequence the parser accepts is the canonical token sequence
+   of an MCNP expression (its parentheses as MParen nodes), the tree is
+   [psem e], and it denotes MCNP's meaning of that expression: the parser never
+   gives a meaning to something that is not an expression, nor a wrong one.
+   String level: through the model's lexer ([tokens_of]); that the lexer reads
+   characters the way MCNP does is covered by C11_lex_render in one direction
+   and by the exhaustive tie + independent reader (c11_refparse) in the other *)
+Theorem C11_parse_sound : forall (ts : list token) (a : ast), parse_tokens ts = Ok a ->
+  exists e, toks 0 e = ts /\ psem e = Ok a /\
+    (nonzero e = true -> forall cd sg, aden cd sg a = mden cd sg e).
+Proof. exact parse_sound_den. Qed.
+Print Assumptions C11_parse_sound.
+
+Theorem C11_get_ast_sound_partial : forall (s : String.string) (a : ast), get_ast s = Ok a ->
+  exists e, tokens_of s = toks 0 e /\ psem e = Ok a /\
+    (nonzero e = true -> forall cd sg, aden cd sg a = mden cd sg e).
+Proof. exact get_ast_sound. Qed.
+Print Assumptions C11_get_ast_sound_partial.
 
 (* [admissible] excludes exactly two classes of well-formed MCNP expressions
    that the code rejects (genuine defects, known findings): *)
